@@ -245,8 +245,8 @@ def signature(tr, matched):
     return f"C11/lru_cache/{what}-rejected{ctx}"
 
 
-def check(prop, tier, seed):
-    v = Verdict(prop, tier, seed)
+def check(prop, tier, seed, into=None):
+    v = into or Verdict(prop, tier, seed)
     rnd = random.Random(seed)
     tot = {"states": 0, "transitions": 0, "paths": 0, "drift": 0}
     alltraces = []
